@@ -93,6 +93,10 @@ type Case struct {
 	// Pad: link padding of injected packets (46 = up to the Ethernet minimum, other k = k trailing
 	// bytes): what follows the datagram is not payload and must not be mirrored
 	Pad int `json:"pad,omitempty"`
+	// Refuse: the link endpoint refuses these echo replies (1-based, in order of emission)
+	// with a transmit error. Such a reply is lost (its request counts as optional); every
+	// other request must still be answered.
+	Refuse []int `json:"refuse,omitempty"`
 }
 
 // PingW is one Write on a ping socket.
@@ -433,6 +437,9 @@ func judge(trace []netsim.Frame, sents []*sent) (*evid.Failure, []*sent) {
 	}
 	for _, f := range trace {
 		p := f.Pkt
+		if f.Refused {
+			continue // never left the link endpoint
+		}
 		if !isEchoReply(p) {
 			icmp := (p.L3 == "ipv4" && p.Proto == codec.ProtoICMP) || (p.L3 == "ipv6" && p.Proto == codec.ProtoICMPv6)
 			if icmp && (p.L4Kind == "" || len(p.L4) < 8) {
@@ -612,6 +619,35 @@ func runOnce(c Case, deadline time.Duration, rec bool) (fail, miss *evid.Failure
 	var sents []*sent
 	n := 0
 	removedB := false
+	if len(c.Refuse) > 0 {
+		var rmu sync.Mutex
+		nrep := 0
+		tap.Refuse = func(f netsim.Frame) *tcpip.Error {
+			if f.Pkt == nil || !isEchoReply(f.Pkt) {
+				return nil
+			}
+			rmu.Lock()
+			defer rmu.Unlock()
+			nrep++
+			for _, k := range c.Refuse {
+				if k == nrep {
+					// the request this reply answers is not owed an answer any more
+					gmu.Lock()
+					for _, s := range sents {
+						if s.r.Kind == "echo" && s.r.ID == f.Pkt.ICMPID && s.r.Seq == f.Pkt.ICMPSeq {
+							s.required = false
+						}
+					}
+					gmu.Unlock()
+					if rec {
+						evid.Label("reply-refused-by-link")
+					}
+					return tcpip.ErrNoBufferSpace
+				}
+			}
+			return nil
+		}
+	}
 	for bi, burst := range c.Bursts {
 		if len(burst) > 40 {
 			burst = burst[:40]
@@ -721,7 +757,9 @@ func runOnce(c Case, deadline time.Duration, rec bool) (fail, miss *evid.Failure
 				}
 				if k == len(pk)-1 {
 					s.at = tap.Len()
+					gmu.Lock()
 					sents = append(sents, s)
+					gmu.Unlock()
 				}
 				tap.InjectViews(proto, "", vs)
 			}
@@ -1099,6 +1137,12 @@ func genCase(rt *rapid.T) Case {
 		c.Bursts = append(c.Bursts, burst)
 		c.Hold = append(c.Hold, b.hold)
 		c.Ops = append(c.Ops, rapid.SampledFrom([]int{0, 0, 0, 0, 0, 1, 1, 2}).Draw(rt, "addr-op"))
+	}
+	// transmit faults on echo replies
+	if rapid.SampledFrom([]int{0, 0, 0, 1}).Draw(rt, "refuse") == 1 {
+		for i, n := 0, rapid.IntRange(1, 2).Draw(rt, "nrefuse"); i < n; i++ {
+			c.Refuse = append(c.Refuse, rapid.IntRange(1, 8).Draw(rt, "refuse_k"))
+		}
 	}
 	// ping-socket writes (an application hands arbitrary ICMP messages to the stack)
 	for i, n := 0, rapid.SampledFrom([]int{0, 0, 0, 1, 2, 3}).Draw(rt, "npings"); i < n; i++ {
